@@ -50,6 +50,12 @@ def generate(rng, tier):
         rkind = kind
         if kind == "int" and rng.random() < 0.15:
             rkind = "float"
+        if kind == "datetime" and rng.random() < 0.35:
+            rkind = rng.choice(["datetime_ns", "datetime_ns", "datetime_ms"])      # the same instants held in another unit on the right side
+            tags.add("datetime-units-differ")
+        if kind == "date" and rng.random() < 0.25:
+            rkind = "datetime"          # dates against datetimes (at midnight)
+            tags.add("datetime-units-differ")
         p = gen.pool(rng, kind, 0.15 if rkind == kind else 0.0, tags)
         rng.shuffle(p)
         k = rng.randint(1, min(4, len(p)))
@@ -61,6 +67,12 @@ def generate(rng, tier):
         rv = [None if rng.random() < na_r else rng.choice(rp) for _ in range(nr)]
         if rkind == "float" and kind == "int":
             rv = [None if v is None else float(v) for v in rv]
+        if rkind == "datetime" and kind == "date":
+            import datetime as _dt
+            rv = [None if v is None else _dt.datetime(v.year, v.month, v.day) for v in rv]
+        if rkind == "datetime_ms":
+            lv = [None if v is None else v.replace(microsecond=(v.microsecond // 1000) * 1000) for v in lv]
+            rv = [None if v is None else v.replace(microsecond=(v.microsecond // 1000) * 1000) for v in rv]
         lname = f"k{j}"
         rname = lname if rng.random() < 0.6 else f"r{j}"
         if j == 0 and rng.random() < 0.04:
